@@ -165,7 +165,7 @@ def eval_case(case: dict) -> dict:
                              "detail": f"page {pi + 1}/{n}: {nh} column-header row(s), expected {exp_rows} (pageby_header={spec.get('pageby_header', True)}, header={hm})"})
             if count("data") == 0 and spec.get("n", 3) > 0:
                 viol.append({"klass": None, "sig": "page-without-data", "detail": f"page {pi + 1}/{n} has no data row: {names}"})
-            if spec.get("subline_by"):
+            if spec.get("subline_by") and count("data") > 0:  # an empty table has no group to name
                 expect(True, "subline_by heading", "subline_by")
         else:
             if count("pict") != 1:
@@ -197,6 +197,7 @@ STRATS = {
 }
 # (rows, nrow) chosen so that page counts 1, 2, 3, many all occur for every reservation
 SIZES = [(2, 40), (6, 9), (8, 7), (12, 6)]
+TINY = [(0, 40), (1, 40), (1, 1)]  # empty and one-row tables: one page, all placement options coincide
 
 
 def table_spec(pt, pf, ps, fn, src, pbh, strat, hm, size, extra_page=None, **more):
@@ -267,6 +268,12 @@ def plan(run):
                             if quick and size == SIZES[3] and (strat, hm) != ("plain", "explicit"):
                                 continue
                             core.append(table_spec(pt, pf, ps, fn, src, pbh, strat, hm, size))
+    for pt, pf, ps in itertools.product(PLACE, repeat=3):
+        for fn, src in itertools.product(modes, repeat=2):
+            for strat in ("plain", "page_by", "subline_by"):
+                for hm in ("explicit", "default", "none"):
+                    for size in TINY:
+                        core.append(table_spec(pt, pf, ps, fn, src, True, strat, hm, size))
     run.layer("placement-product", "mc.props.c06:eval_case", core, chunk=60, total=len(core))
     # geometry ball
     geoms = geom_variants(2)
